@@ -20,4 +20,3 @@ func TestMain(m *testing.M) {
 	writeStats()
 	os.Exit(code)
 }
-
